@@ -345,6 +345,8 @@ RICH_STRINGS = [
     "'TRUE'", "'true'", "'NULL'", "'äöü€😀'", "'a,b,,c'", "','", "'ab' * 50",
     # characters that are digits for isdigit() but not for int()
     "'²²²²0101'", "'²²'", "'2020010¹'", "'١٢٣٤٠١٠١'", "'a\x00b'",
+    # text the host cannot encode
+    "chr(55296)", "'a' + chr(56320) + 'b'", "chr(0)",
 ]
 RICH_NUMBERS = ["0", "1", "-1", "2", "7", "-7", "31", "32", "33", "63", "64",
                 "65", "255", "256", "1000", "65536", "-65536", "0.5", "-0.5", "1e-7 * 1" if False
